@@ -2,18 +2,23 @@
   Property C03 — ABI decode inverts encode, and JSON output round-trips in every serializer mode.
   Model: FFS.Model.Abi.decode / decodeElem (abidecode.go), serInt / serBytes (outputserialization.go).
   Proved here:
-  * `int_word_roundtrip`   : every int<M> value read back from its 32-byte two's-complement word is the value
-                             (ParseInt256TwosComplementBytes ∘ SerializeInt256TwosComplementBytes = id on [-2^255, 2^255)).
-  * `uint_word_roundtrip`  : every uint<M> / address / bool value read back from the low M/8 bytes of its word is the
-                             value, for every width the type parser admits.
+  * **`decode_enc`** / **`decodeParams_enc`** : decoding the specification encoding of any well-typed value of any
+        valid type — placed anywhere in a block, with anything before and after it — returns exactly that value
+        (same integers, bytes, strings, array lengths, tuple structure), by mutual induction over the value tree
+        (static values read in place, dynamic ones through their offset word relative to the head start). Hypotheses:
+        elementary widths as the type parser admits them (`ElemOK`, discharged from the regenerated table by
+        `table_decoders`), every offset / length word below 2^32 (`Small`: the decoder refuses wider words), and a
+        dynamic array of more than 65536 elements has elements with a non-empty encoding (the cap of fix 450384a).
+  * `int_word_roundtrip`, `uint_word_roundtrip`, `decodeElem_static`, `decode_dynbytes_at` : the leaves, all widths.
   * `number_only_if_exact` : in the "number if it fits" mode an integer is emitted as a JSON number exactly when
-                             |z| ≤ 2^53 − 1, otherwise as a string — never a rounded number.
-  PARTIAL: decode(enc(v)) = v for whole value trees (head/tail offsets, arrays, tuples, dynamic bytes) and the JSON
-  round trip through the parser are decided by the correspondence run (Tier A: the implementation decodes the Lean
-  *specification* encoding of generated values to exactly those values, for all serializer modes), not proved here.
-  The encoder half — enc is what the code produces — is C02.encode_eq_spec.
+        |z| ≤ 2^53 − 1, otherwise as a string — never a rounded number.
+  Together with C02.encode_eq_spec (the code's encoder produces the specification encoding) this is
+  decode (encode v) = v for the model of the code.
+  PARTIAL: the JSON serialisation round trip through the parser (every mode × serializer) is decided by the
+  correspondence run (Tier A), not proved here.
 -/
 import FFS.Model.AbiIO
+import FFS.Spec.Abi
 import FFS.Lemmas.Bytes
 namespace FFS.Props.C03
 open FFS FFS.Model.Abi
@@ -135,5 +140,782 @@ theorem number_only_if_exact (z : Int) :
     exact ⟨toString z, by rw [if_neg this]⟩
 
 theorem exact_bound : (9007199254740991 : Int) = 2 ^ 53 - 1 := by decide
+
+/-! ## decode ∘ enc = id on whole value trees -/
+
+/-- `bs` sits in `block` at position `p` -/
+def At (block : Bytes) (p : Nat) (bs : Bytes) : Prop := ∃ pre post, block = pre ++ bs ++ post ∧ pre.length = p
+
+theorem At.left {block : Bytes} {p : Nat} {a b : Bytes} (h : At block p (a ++ b)) : At block p a := by
+  obtain ⟨pre, post, hb, hp⟩ := h
+  exact ⟨pre, b ++ post, by rw [hb]; simp [List.append_assoc], hp⟩
+
+theorem At.right {block : Bytes} {p : Nat} {a b : Bytes} (h : At block p (a ++ b)) : At block (p + a.length) b := by
+  obtain ⟨pre, post, hb, hp⟩ := h
+  exact ⟨pre ++ a, post, by rw [hb]; simp [List.append_assoc], by simp [hp]⟩
+
+theorem At.bound {block : Bytes} {p : Nat} {bs : Bytes} (h : At block p bs) : p + bs.length ≤ block.length := by
+  obtain ⟨pre, post, hb, hp⟩ := h
+  rw [hb]; simp; omega
+
+theorem At.slice {block : Bytes} {p : Nat} {bs : Bytes} (h : At block p bs) : (block.drop p).take bs.length = bs := by
+  obtain ⟨pre, post, hb, hp⟩ := h
+  subst hp
+  rw [hb, List.append_assoc, List.drop_left, List.take_left]
+
+theorem At.slice?_eq {block : Bytes} {p : Nat} {bs : Bytes} (h : At block p bs) :
+    slice? block p (p + bs.length) = .ok bs := by
+  unfold slice?
+  have hb := h.bound
+  have : p ≤ p + bs.length ∧ p + bs.length ≤ block.length := ⟨by omega, hb⟩
+  rw [if_pos this]
+  have e : p + bs.length - p = bs.length := by omega
+  rw [e, h.slice]
+
+theorem At.nil (block : Bytes) (p : Nat) (hp : p ≤ block.length) : At block p [] :=
+  ⟨block.take p, block.drop p, by simp, by simp [hp]⟩
+
+/-- a sub-range of a placed string is placed -/
+theorem At.sub {block : Bytes} {p : Nat} {bs : Bytes} (h : At block p bs) (k : Nat) (hk : k ≤ bs.length) :
+    At block (p + k) (bs.drop k) := by
+  have : bs = bs.take k ++ bs.drop k := (List.take_append_drop k bs).symm
+  rw [this] at h
+  have := h.right
+  simpa [List.length_take, Nat.min_eq_left hk] using this
+
+theorem toBE_length : ∀ (w v : Nat), (toBE w v).length = w := by
+  intro w
+  induction w with
+  | zero => intro v; rfl
+  | succ w ih => intro v; rw [toBE]; simp [ih]
+
+theorem bitLen_le_of_lt (n m : Nat) (h : n < 2 ^ m) : bitLen n ≤ m := by
+  unfold bitLen
+  split
+  · omega
+  · rename_i hn
+    have := (Nat.log2_lt hn).mpr h
+    omega
+
+/-- reading a length / offset word that is placed in the block -/
+theorem decodeLength_at (block : Bytes) (p n : Nat) (h : At block p (toBE 32 n)) (hn : n < 2 ^ 32) :
+    decodeLength block p = .ok n := by
+  have hb := h.bound
+  rw [toBE_length] at hb
+  have hs := h.slice?_eq
+  rw [toBE_length] at hs
+  unfold decodeLength
+  rw [if_neg (by omega), hs]
+  simp only []
+  have hlt : n < 256 ^ 32 := by
+    have : (2 : Nat) ^ 32 ≤ 256 ^ 32 := by rw [two256]; exact Nat.pow_le_pow_right (by decide) (by decide)
+    omega
+  rw [fromBE_toBE, Nat.mod_eq_of_lt hlt]
+  have := bitLen_le_of_lt n 32 hn
+  rw [if_neg (by omega)]
+
+/-- name, decoder, dynamic kind and width of an elementary type as `parseElementary` produces them -/
+def ElemOK (info : ElemInfo) (suffix : String) (m : Nat) : Prop :=
+  (info.name = "int" ∧ codecOf info.dec = .sint ∧ info.dyn = .never ∧ 8 ≤ m ∧ m ≤ 256 ∧ m % 8 = 0) ∨
+  (info.name = "uint" ∧ codecOf info.dec = .uint ∧ info.dyn = .never ∧ 8 ≤ m ∧ m ≤ 256 ∧ m % 8 = 0) ∨
+  (info.name = "address" ∧ codecOf info.dec = .uint ∧ info.dyn = .never ∧ m = 160) ∨
+  (info.name = "bool" ∧ codecOf info.dec = .uint ∧ info.dyn = .never ∧ m = 8) ∨
+  (info.name = "bytes" ∧ codecOf info.dec = .bytes ∧ info.dyn = .whenNoSuffix ∧
+      ((suffix = "" ∧ m = 0) ∨ (suffix ≠ "" ∧ 1 ≤ m ∧ m ≤ 32))) ∨
+  (info.name = "function" ∧ codecOf info.dec = .bytes ∧ info.dyn = .never ∧ m = 24) ∨
+  (info.name = "string" ∧ codecOf info.dec = .string ∧ info.dyn = .always ∧ m = 0)
+
+/-- the regenerated type table assigns exactly these decoders and dynamic kinds -/
+theorem table_decoders :
+    (Gen.AbiTypeTable.table.map fun i => (i.name, codecOf i.dec, i.dyn)) =
+      [("address", .uint, .never), ("bool", .uint, .never), ("bytes", .bytes, .whenNoSuffix), ("fixed", .float, .never),
+       ("function", .bytes, .never), ("int", .sint, .never), ("string", .string, .always), ("ufixed", .float, .never),
+       ("uint", .uint, .never)] := by decide
+
+theorem parseInt256_word (z : Int) (hlo : -(2 : Int) ^ 255 ≤ z) (hhi : z < 2 ^ 255) :
+    parseInt256 (toBE 32 (z % 2 ^ 256).toNat) = z := int_word_roundtrip z hlo hhi
+
+theorem pow_mono_int (a b : Nat) (h : a ≤ b) : (2 : Int) ^ a ≤ 2 ^ b := by
+  have : (2 : Nat) ^ a ≤ 2 ^ b := Nat.pow_le_pow_right (by decide) h
+  exact_mod_cast this
+
+theorem decode_uint_at (info : ElemInfo) (m nat : Nat) (hc : codecOf info.dec = .uint) (hm : m ≤ 256) (hm8 : m % 8 = 0)
+    (hn : nat < 2 ^ m) (block : Bytes) (hs hp : Nat) (hat : At block hp (toBE 32 nat)) :
+    decodeElem info m block hs hp = .ok (.int nat) := by
+  have hb := hat.bound
+  rw [toBE_length] at hb
+  have hsub := hat.sub (32 - m / 8) (by rw [toBE_length]; omega)
+  have hsl := hsub.slice?_eq
+  have hdl : ((toBE 32 nat).drop (32 - m / 8)).length = m / 8 := by
+    rw [List.length_drop, toBE_length]; omega
+  rw [hdl] at hsl
+  have hend : hp + (32 - m / 8) + m / 8 = hp + 32 := by omega
+  rw [hend] at hsl
+  have hfrom : fromBE ((toBE 32 nat).drop (32 - m / 8)) = nat := by
+    rw [fromBE_drop_toBE 32 (32 - m / 8) nat (by omega)]
+    have hw : 32 - (32 - m / 8) = m / 8 := by omega
+    have hpow : 256 ^ (m / 8) = 2 ^ m := by
+      have h8 : 8 * (m / 8) = m := by omega
+      rw [show (256 : Nat) = 2 ^ 8 from rfl, ← Nat.pow_mul, h8]
+    rw [hw, hpow, Nat.mod_eq_of_lt hn]
+  unfold decodeElem
+  rw [hc]
+  simp only []
+  rw [if_neg (by omega), hsl]
+  simp only [Outcome.bind]
+  rw [hfrom]
+
+theorem toNat_lt_pow (z : Int) (m : Nat) (h0 : 0 ≤ z) (h : z < 2 ^ m) : z.toNat < 2 ^ m := by
+  have : (z.toNat : Int) = z := Int.toNat_of_nonneg h0
+  have h2 : ((2 ^ m : Nat) : Int) = (2 : Int) ^ m := by simp
+  omega
+
+theorem padRight32_take (b : Bytes) (m : Nat) (hlen : b.length = m) (h1 : 1 ≤ m) (h32 : m ≤ 32) :
+    Spec.Abi.padRight32 (b.take m) = b ++ zeros (32 - m) := by
+  unfold Spec.Abi.padRight32
+  have ht : b.take m = b := List.take_of_length_le (by omega)
+  rw [ht, hlen]
+  congr 2
+  omega
+
+theorem decode_fixedbytes_at (info : ElemInfo) (m : Nat) (b : Bytes) (hc : codecOf info.dec = .bytes) (hlen : b.length = m)
+    (h1 : 1 ≤ m) (h32 : m ≤ 32) (block : Bytes) (hs hp : Nat) (hat : At block hp (b ++ zeros (32 - m))) :
+    decodeElem info m block hs hp = .ok (.bytes b) := by
+  have hb := hat.bound
+  have hl := hat.left
+  have hsl := hl.slice
+  have hbl := hl.bound
+  unfold decodeElem
+  rw [hc]
+  simp only []
+  rw [if_neg (by omega), if_neg (by omega)]
+  rw [hlen] at hsl
+  rw [hsl]
+  simp
+
+/-- a static elementary value read back from where its word sits -/
+theorem decodeElem_static (info : ElemInfo) (suffix : String) (m n : Nat) (v : CV) (hok : ElemOK info suffix m)
+    (hw : Spec.Abi.WellTyped (.elem info suffix m n) v = true) (hst : Spec.Abi.isDynamic (.elem info suffix m n) = false)
+    (block : Bytes) (hs hp : Nat) (hat : At block hp (Spec.Abi.encElem info suffix m v)) :
+    decodeElem info m block hs hp = .ok v ∧ (Spec.Abi.encElem info suffix m v).length = 32 := by
+  unfold Spec.Abi.WellTyped at hw
+  unfold Spec.Abi.isDynamic at hst
+  rcases hok with ⟨hn, hc, _, h8, h256, hmod⟩ | ⟨hn, hc, _, h8, h256, hmod⟩ | ⟨hn, hc, _, hm⟩ | ⟨hn, hc, _, hm⟩ |
+    ⟨hn, hc, _, hm⟩ | ⟨hn, hc, _, hm⟩ | ⟨hn, hc, _, hm⟩
+  · -- int<M>
+    cases v with
+    | int z =>
+      simp only [hn, if_true, Bool.and_eq_true, decide_eq_true_eq, beq_self_eq_true] at hw
+      obtain ⟨⟨hlo, hhi⟩, _⟩ := hw
+      have henc : Spec.Abi.encElem info suffix m (.int z) = toBE 32 (z % 2 ^ 256).toNat := by
+        simp [Spec.Abi.encElem, hn]
+      rw [henc] at hat ⊢
+      have hb := hat.bound
+      have hsl := hat.slice?_eq
+      rw [toBE_length] at hb hsl
+      have hp1 := pow_mono_int (m - 1) 255 (by omega)
+      refine ⟨?_, toBE_length _ _⟩
+      unfold decodeElem
+      rw [hc]
+      simp only []
+      rw [if_neg (by omega), hsl]
+      simp only [Outcome.bind]
+      rw [parseInt256_word z (by omega) (by omega)]
+    | bytes b => simp [hn] at hw
+    | str s => simp [hn] at hw
+    | kids cs => simp at hw
+  · -- uint<M>
+    cases v with
+    | int z =>
+      have hw' : 0 ≤ z ∧ z < 2 ^ m := by simpa [hn] using hw
+      have henc : Spec.Abi.encElem info suffix m (.int z) = toBE 32 z.toNat := by
+        simp [Spec.Abi.encElem, hn, Spec.Abi.encUint]
+      rw [henc] at hat ⊢
+      have := decode_uint_at info m z.toNat hc h256 hmod (toNat_lt_pow z m hw'.1 hw'.2) block hs hp hat
+      rw [Int.toNat_of_nonneg hw'.1] at this
+      exact ⟨this, toBE_length _ _⟩
+    | bytes b => simp [hn] at hw
+    | str s => simp [hn] at hw
+    | kids cs => simp at hw
+  · -- address
+    cases v with
+    | int z =>
+      subst hm
+      have hw' : 0 ≤ z ∧ z < 2 ^ 160 := by simpa [hn] using hw
+      have henc : Spec.Abi.encElem info suffix 160 (.int z) = toBE 32 z.toNat := by
+        simp [Spec.Abi.encElem, hn, Spec.Abi.encUint]
+      rw [henc] at hat ⊢
+      have := decode_uint_at info 160 z.toNat hc (by omega) (by omega) (toNat_lt_pow z 160 hw'.1 hw'.2) block hs hp hat
+      rw [Int.toNat_of_nonneg hw'.1] at this
+      exact ⟨this, toBE_length _ _⟩
+    | bytes b => simp [hn] at hw
+    | str s => simp [hn] at hw
+    | kids cs => simp at hw
+  · -- bool
+    cases v with
+    | int z =>
+      subst hm
+      have hw' : z = 0 ∨ z = 1 := by simpa [hn] using hw
+      have h0 : 0 ≤ z := by omega
+      have hlt : z.toNat < 2 ^ 8 := by rcases hw' with rfl | rfl <;> decide
+      have henc : Spec.Abi.encElem info suffix 8 (.int z) = toBE 32 z.toNat := by
+        simp [Spec.Abi.encElem, hn, Spec.Abi.encUint]
+      rw [henc] at hat ⊢
+      have := decode_uint_at info 8 z.toNat hc (by omega) (by omega) hlt block hs hp hat
+      rw [Int.toNat_of_nonneg h0] at this
+      exact ⟨this, toBE_length _ _⟩
+    | bytes b => simp [hn] at hw
+    | str s => simp [hn] at hw
+    | kids cs => simp at hw
+  · -- bytes<M> (the dynamic `bytes` is excluded by `hst`)
+    cases v with
+    | bytes b =>
+      rcases hm with ⟨hs', _⟩ | ⟨hs', h1, h32⟩
+      · simp [hn, hs'] at hst
+      · have hlen : b.length = m := by simpa [hn, hs'] using hw
+        have henc : Spec.Abi.encElem info suffix m (.bytes b) = b ++ zeros (32 - m) := by
+          simp [Spec.Abi.encElem, hn, hs', padRight32_take b m hlen h1 h32]
+        rw [henc] at hat ⊢
+        exact ⟨decode_fixedbytes_at info m b hc hlen h1 h32 block hs hp hat, by simp [zeros, hlen]; omega⟩
+    | int z => simp [hn] at hw
+    | str s => simp [hn] at hw
+    | kids cs => simp at hw
+  · -- function
+    cases v with
+    | bytes b =>
+      subst hm
+      have hlen : b.length = 24 := by simpa [hn] using hw
+      have henc : Spec.Abi.encElem info suffix 24 (.bytes b) = b ++ zeros (32 - 24) := by
+        simp [Spec.Abi.encElem, hn, padRight32_take b 24 hlen (by omega) (by omega)]
+      rw [henc] at hat ⊢
+      exact ⟨decode_fixedbytes_at info 24 b hc hlen (by omega) (by omega) block hs hp hat, by simp [zeros, hlen]⟩
+    | int z => simp [hn] at hw
+    | str s => simp [hn] at hw
+    | kids cs => simp at hw
+  · -- string is dynamic
+    simp [hn] at hst
+
+theorem padRight32_length_ge (b : Bytes) : b.length ≤ (Spec.Abi.padRight32 b).length := by
+  simp [Spec.Abi.padRight32]
+
+/-- dynamic bytes / string read back through their offset word -/
+theorem decode_dynbytes_at (info : ElemInfo) (b : Bytes) (hc : codecOf info.dec = .bytes ∨ codecOf info.dec = .string)
+    (block : Bytes) (hs hp off : Nat) (hoff : At block hp (toBE 32 off)) (hoff32 : off < 2 ^ 32)
+    (hdat : At block (hs + off) (Spec.Abi.encUint b.length ++ Spec.Abi.padRight32 b)) (hlen32 : b.length < 2 ^ 32) :
+    decodeElem info 0 block hs hp = .ok (if codecOf info.dec = .string then .str b else .bytes b) := by
+  have h1 := decodeLength_at block hp off hoff hoff32
+  have h2 := decodeLength_at block (hs + off) b.length hdat.left hlen32
+  have hr := hdat.right
+  rw [Spec.Abi.encUint, toBE_length] at hr
+  have hb := hr.bound
+  have hpl := padRight32_length_ge b
+  have hsl : (block.drop (hs + off + 32)).take b.length = b := by
+    have : At block (hs + off + 32) (b ++ zeros ((32 - b.length % 32) % 32)) := by
+      simpa [Spec.Abi.padRight32] using hr
+    exact this.left.slice
+  unfold decodeElem
+  rcases hc with hc | hc
+  · rw [hc]
+    simp only [if_true, h1, h2]
+    rw [if_neg (by omega), hsl]
+  · rw [hc]
+    simp only [if_true, h1, h2]
+    rw [if_neg (by omega), hsl]
+
+/-! ### type trees and sizes -/
+
+mutual
+  def ValidTy : Ty → Prop
+    | .elem info suffix m _ => ElemOK info suffix m
+    | .farr t _ => ValidTy t
+    | .darr t => ValidTy t
+    | .tuple _ ts => ValidTys ts
+  def ValidTys : List Ty → Prop
+    | [] => True
+    | t :: ts => ValidTy t ∧ ValidTys ts
+end
+
+mutual
+  /-- the model's `isDynamicType` is the specification's notion on valid types -/
+  theorem isDynamicType_eq : ∀ (t : Ty), ValidTy t → isDynamicType t = Spec.Abi.isDynamic t
+    | .elem info suffix m n, hv => by
+      rw [ValidTy] at hv
+      rw [isDynamicType, Spec.Abi.isDynamic]
+      rcases hv with ⟨hn, _, hd, _⟩ | ⟨hn, _, hd, _⟩ | ⟨hn, _, hd, _⟩ | ⟨hn, _, hd, _⟩ | ⟨hn, _, hd, _⟩ | ⟨hn, _, hd, _⟩ | ⟨hn, _, hd, _⟩ <;>
+        simp [hn, hd]
+    | .farr t k, hv => by
+      rw [ValidTy] at hv
+      rw [isDynamicType, Spec.Abi.isDynamic, isDynamicType_eq t hv]
+      by_cases hk : k = 0 <;> simp [hk]
+    | .darr t, _ => by rw [isDynamicType, Spec.Abi.isDynamic]
+    | .tuple ns ts, hv => by
+      rw [ValidTy] at hv
+      rw [isDynamicType, Spec.Abi.isDynamic, anyDynamic_eq ts hv]
+  theorem anyDynamic_eq : ∀ (ts : List Ty), ValidTys ts → anyDynamic ts = Spec.Abi.anyDyn ts
+    | [], _ => by rw [anyDynamic, Spec.Abi.anyDyn]
+    | t :: ts, hv => by
+      rw [ValidTys] at hv
+      rw [anyDynamic, Spec.Abi.anyDyn, isDynamicType_eq t hv.1, anyDynamic_eq ts hv.2]
+end
+
+/-- bytes placed in the tail area -/
+def tailLen : List (Bool × Bytes) → Nat
+  | [] => 0
+  | (dyn, e) :: r => (if dyn then e.length else 0) + tailLen r
+
+/-- every offset and length word of a node fits 32 bits (the decoder refuses wider ones) -/
+def LayoutSmall (items : List (Bool × Bytes)) : Prop := Spec.Abi.headsLen items + tailLen items < 2 ^ 32
+
+mutual
+  def Small : Ty → CV → Prop
+    | .elem _ _ _ _, .bytes b => b.length < 2 ^ 32
+    | .elem _ _ _ _, .str b => b.length < 2 ^ 32
+    | .farr t _, .kids cs => SmallSame t cs ∧ LayoutSmall (Spec.Abi.encSame t cs)
+    | .darr t, .kids cs => SmallSame t cs ∧ LayoutSmall (Spec.Abi.encSame t cs) ∧ cs.length < 2 ^ 32 ∧
+        (cs.length ≤ Gen.AbiCodecFacts.maxEmptyElementCount ∨ Spec.Abi.isDynamic t = true ∨ ∀ c ∈ cs, (Spec.Abi.enc t c).length ≠ 0)
+    | .tuple _ ts, .kids cs => SmallEach ts cs ∧ LayoutSmall (Spec.Abi.encEach ts cs)
+    | _, _ => True
+  def SmallSame : Ty → List CV → Prop
+    | _, [] => True
+    | t, c :: cs => Small t c ∧ SmallSame t cs
+  def SmallEach : List Ty → List CV → Prop
+    | t :: ts, c :: cs => Small t c ∧ SmallEach ts cs
+    | _, _ => True
+end
+
+/-- concatenation of the encodings (what the heads are when nothing is dynamic) -/
+def flat : List (Bool × Bytes) → Bytes
+  | [] => []
+  | (_, e) :: r => e ++ flat r
+
+theorem assembleGo_static (hl : Nat) : ∀ (items : List (Bool × Bytes)) (tb : Nat), (∀ i ∈ items, i.1 = false) →
+    Spec.Abi.assembleGo hl items tb = (flat items, []) := by
+  intro items
+  induction items with
+  | nil => intro tb _; rfl
+  | cons p r ih =>
+    intro tb h
+    obtain ⟨dyn, e⟩ := p
+    have hd : dyn = false := h (dyn, e) (by simp)
+    subst hd
+    rw [Spec.Abi.assembleGo]
+    simp [ih tb (fun i hi => h i (by simp [hi])), flat]
+
+theorem headsLen_static : ∀ (items : List (Bool × Bytes)), (∀ i ∈ items, i.1 = false) →
+    Spec.Abi.headsLen items = (flat items).length := by
+  intro items
+  induction items with
+  | nil => intro _; rfl
+  | cons p r ih =>
+    intro h
+    obtain ⟨dyn, e⟩ := p
+    have hd : dyn = false := h (dyn, e) (by simp)
+    subst hd
+    simp [Spec.Abi.headsLen, flat, ih (fun i hi => h i (by simp [hi]))]
+
+theorem assemble_static (items : List (Bool × Bytes)) (h : ∀ i ∈ items, i.1 = false) :
+    Spec.Abi.assemble items = flat items := by
+  simp [Spec.Abi.assemble, assembleGo_static _ items 0 h]
+
+theorem encSame_flags (t : Ty) : ∀ cs, ∀ i ∈ Spec.Abi.encSame t cs, i.1 = Spec.Abi.isDynamic t
+  | [], i, hi => by simp [Spec.Abi.encSame] at hi
+  | c :: cs, i, hi => by
+    rw [Spec.Abi.encSame] at hi
+    rcases List.mem_cons.mp hi with rfl | hi
+    · rfl
+    · exact encSame_flags t cs i hi
+
+theorem encEach_flags : ∀ (ts : List Ty) (cs : List CV), Spec.Abi.anyDyn ts = false → ∀ i ∈ Spec.Abi.encEach ts cs, i.1 = false
+  | [], _, _, i, hi => by simp [Spec.Abi.encEach] at hi
+  | _ :: _, [], _, i, hi => by simp [Spec.Abi.encEach] at hi
+  | t :: ts, c :: cs, h, i, hi => by
+    rw [Spec.Abi.anyDyn] at h
+    simp only [Bool.or_eq_false_iff] at h
+    rw [Spec.Abi.encEach] at hi
+    rcases List.mem_cons.mp hi with rfl | hi
+    · exact h.1
+    · exact encEach_flags ts cs h.2 i hi
+
+theorem decodeRepeatDyn_false (dec : Nat → Nat → Outcome (Nat × CV)) : ∀ (n hs hp : Nat),
+    decodeRepeatDyn dec false n hs hp = decodeRepeat dec n hs hp := by
+  intro n
+  induction n with
+  | zero => intro hs hp; rfl
+  | succ n ih =>
+    intro hs hp
+    rw [decodeRepeatDyn, decodeRepeat]
+    split
+    · rename_i r c _
+      simp only [Bool.and_false, Bool.false_and, Bool.false_eq_true, if_false, ih]
+    · rfl
+    · rfl
+
+theorem assembleGo_heads_length (hl : Nat) : ∀ (items : List (Bool × Bytes)) (tb : Nat),
+    (Spec.Abi.assembleGo hl items tb).1.length = Spec.Abi.headsLen items := by
+  intro items
+  induction items with
+  | nil => intro tb; rfl
+  | cons p r ih =>
+    intro tb
+    obtain ⟨dyn, e⟩ := p
+    cases dyn with
+    | true => simp [Spec.Abi.assembleGo, Spec.Abi.headsLen, Spec.Abi.encUint, toBE_length, ih]
+    | false => simp [Spec.Abi.assembleGo, Spec.Abi.headsLen, ih]
+
+/-- what "decode inverts encode" means at one node: a static value is read from where its encoding sits; a dynamic
+    one through an offset word, relative to the head start -/
+def DecOK (t : Ty) (v : CV) (block : Bytes) : Prop :=
+  (Spec.Abi.isDynamic t = false → ∀ hs hp, At block hp (Spec.Abi.enc t v) →
+      decode t block hs hp = .ok ((Spec.Abi.enc t v).length, v)) ∧
+  (Spec.Abi.isDynamic t = true → ∀ hs hp off, off < 2 ^ 32 → At block hp (toBE 32 off) →
+      At block (hs + off) (Spec.Abi.enc t v) → decode t block hs hp = .ok (32, v))
+
+theorem decode_elem_ok (info : ElemInfo) (suffix : String) (m n : Nat) (v : CV) (block : Bytes)
+    (hok : ElemOK info suffix m) (hw : Spec.Abi.WellTyped (.elem info suffix m n) v = true)
+    (hs32 : Small (.elem info suffix m n) v) : DecOK (.elem info suffix m n) v block := by
+  constructor
+  · intro hst hs hp hat
+    rw [Spec.Abi.enc] at hat ⊢
+    obtain ⟨h1, h2⟩ := decodeElem_static info suffix m n v hok hw hst block hs hp hat
+    rw [decode, h1, h2]
+  · intro hdy hs hp off hoff hato hatd
+    rw [Spec.Abi.enc] at hatd
+    rw [decode]
+    unfold Spec.Abi.isDynamic at hdy
+    unfold Spec.Abi.WellTyped at hw
+    rcases hok with ⟨hn, _⟩ | ⟨hn, _⟩ | ⟨hn, _⟩ | ⟨hn, _⟩ | ⟨hn, hc, _, hm⟩ | ⟨hn, _⟩ | ⟨hn, hc, _, hm⟩
+    · simp [hn] at hdy
+    · simp [hn] at hdy
+    · simp [hn] at hdy
+    · simp [hn] at hdy
+    · -- bytes
+      have hsfx : suffix = "" := by simpa [hn] using hdy
+      rcases hm with ⟨_, hm0⟩ | ⟨hne, _⟩
+      · subst hm0
+        cases v with
+        | bytes b =>
+          have henc : Spec.Abi.encElem info suffix 0 (.bytes b) = Spec.Abi.encUint b.length ++ Spec.Abi.padRight32 b := by
+            simp [Spec.Abi.encElem, hn, hsfx]
+          rw [henc] at hatd
+          have hlen : b.length < 2 ^ 32 := by simpa [Small] using hs32
+          have := decode_dynbytes_at info b (Or.inl hc) block hs hp off hato hoff hatd hlen
+          rw [this]
+          simp [hc]
+        | int z => simp [hn] at hw
+        | str s => simp [hn] at hw
+        | kids cs => simp at hw
+      · exact absurd hsfx hne
+    · simp [hn] at hdy
+    · -- string
+      subst hm
+      cases v with
+      | str b =>
+        have henc : Spec.Abi.encElem info suffix 0 (.str b) = Spec.Abi.encUint b.length ++ Spec.Abi.padRight32 b := by
+          simp [Spec.Abi.encElem]
+        rw [henc] at hatd
+        have hlen : b.length < 2 ^ 32 := by simpa [Small] using hs32
+        have := decode_dynbytes_at info b (Or.inr hc) block hs hp off hato hoff hatd hlen
+        rw [this]
+        simp [hc]
+      | int z => simp [hn] at hw
+      | bytes b => simp [hn] at hw
+      | kids cs => simp at hw
+
+mutual
+  /-- **decode inverts encode**, node by node, for every value tree -/
+  theorem decode_enc : ∀ (v : CV) (t : Ty) (block : Bytes), ValidTy t → Spec.Abi.WellTyped t v = true → Small t v →
+      DecOK t v block
+    | .int z, t, block, hv, hw, hs32 => by
+      cases t with
+      | elem info suffix m n => exact decode_elem_ok info suffix m n _ block (by simpa [ValidTy] using hv) hw hs32
+      | farr t k => simp [Spec.Abi.WellTyped] at hw
+      | darr t => simp [Spec.Abi.WellTyped] at hw
+      | tuple ns ts => simp [Spec.Abi.WellTyped] at hw
+    | .bytes b, t, block, hv, hw, hs32 => by
+      cases t with
+      | elem info suffix m n => exact decode_elem_ok info suffix m n _ block (by simpa [ValidTy] using hv) hw hs32
+      | farr t k => simp [Spec.Abi.WellTyped] at hw
+      | darr t => simp [Spec.Abi.WellTyped] at hw
+      | tuple ns ts => simp [Spec.Abi.WellTyped] at hw
+    | .str b, t, block, hv, hw, hs32 => by
+      cases t with
+      | elem info suffix m n => exact decode_elem_ok info suffix m n _ block (by simpa [ValidTy] using hv) hw hs32
+      | farr t k => simp [Spec.Abi.WellTyped] at hw
+      | darr t => simp [Spec.Abi.WellTyped] at hw
+      | tuple ns ts => simp [Spec.Abi.WellTyped] at hw
+    | .kids cs, t, block, hv, hw, hs32 => by
+      cases t with
+      | elem info suffix m n => simp [Spec.Abi.WellTyped] at hw
+      | farr t k =>
+        have hvt : ValidTy t := by simpa [ValidTy] using hv
+        rw [Spec.Abi.WellTyped] at hw
+        simp only [Bool.and_eq_true, beq_iff_eq] at hw
+        rw [Small] at hs32
+        have hdt := isDynamicType_eq (.farr t k) hv
+        constructor
+        · -- static fixed array
+          intro hst hs hp hat
+          rw [Spec.Abi.enc] at hat ⊢
+          rw [decode, hdt, hst]
+          simp only [Bool.false_eq_true, if_false]
+          cases cs with
+          | nil =>
+            have hk : k = 0 := by simpa using hw.1.symm
+            subst hk
+            simp [decodeRepeat, Spec.Abi.encSame, Spec.Abi.assemble, Spec.Abi.assembleGo]
+          | cons c cs' =>
+            have hk : k ≠ 0 := by rw [← hw.1]; simp
+            have htst : Spec.Abi.isDynamic t = false := by
+              rw [Spec.Abi.isDynamic] at hst
+              simpa [hk] using hst
+            have hflags : ∀ i ∈ Spec.Abi.encSame t (c :: cs'), i.1 = false := fun i hi => by
+              rw [encSame_flags t _ i hi, htst]
+            rw [assemble_static _ hflags] at hat ⊢
+            have := same_static (c :: cs') t block hvt hw.2 hs32.1 htst hs hp hat
+            rw [hw.1] at this
+            rw [this]
+        · -- dynamic fixed array
+          intro hdy hs hp off hoff hato hatd
+          rw [Spec.Abi.enc] at hatd
+          rw [decode, hdt, hdy]
+          simp only [if_true]
+          rw [decodeLength_at block hp off hato hoff]
+          simp only []
+          have hh := hatd.left (a := (Spec.Abi.assembleGo (Spec.Abi.headsLen (Spec.Abi.encSame t cs)) (Spec.Abi.encSame t cs) 0).1)
+            (b := (Spec.Abi.assembleGo (Spec.Abi.headsLen (Spec.Abi.encSame t cs)) (Spec.Abi.encSame t cs) 0).2)
+          have ht := hatd.right (a := (Spec.Abi.assembleGo (Spec.Abi.headsLen (Spec.Abi.encSame t cs)) (Spec.Abi.encSame t cs) 0).1)
+            (b := (Spec.Abi.assembleGo (Spec.Abi.headsLen (Spec.Abi.encSame t cs)) (Spec.Abi.encSame t cs) 0).2)
+          rw [assembleGo_heads_length] at ht
+          have := same_general cs t block hvt hw.2 hs32.1 false (hs + off) (Spec.Abi.headsLen (Spec.Abi.encSame t cs)) 0 (hs + off)
+            (by have := hs32.2; unfold LayoutSmall at this; omega) (by intro h; cases h) hh (by simpa using ht)
+          rw [decodeRepeatDyn_false, hw.1] at this
+          rw [this]
+      | darr t =>
+        have hvt : ValidTy t := by simpa [ValidTy] using hv
+        rw [Spec.Abi.WellTyped] at hw
+        rw [Small] at hs32
+        constructor
+        · intro hst; simp [Spec.Abi.isDynamic] at hst
+        · intro _ hs hp off hoff hato hatd
+          rw [Spec.Abi.enc] at hatd
+          rw [decode, decodeLength_at block hp off hato hoff]
+          simp only []
+          have hcnt := hatd.left
+          rw [Spec.Abi.encUint] at hcnt
+          rw [decodeLength_at block (hs + off) cs.length hcnt hs32.2.2.1]
+          simp only []
+          have hr := hatd.right
+          rw [Spec.Abi.encUint, toBE_length] at hr
+          have hh := hr.left (a := (Spec.Abi.assembleGo (Spec.Abi.headsLen (Spec.Abi.encSame t cs)) (Spec.Abi.encSame t cs) 0).1)
+            (b := (Spec.Abi.assembleGo (Spec.Abi.headsLen (Spec.Abi.encSame t cs)) (Spec.Abi.encSame t cs) 0).2)
+          have ht := hr.right (a := (Spec.Abi.assembleGo (Spec.Abi.headsLen (Spec.Abi.encSame t cs)) (Spec.Abi.encSame t cs) 0).1)
+            (b := (Spec.Abi.assembleGo (Spec.Abi.headsLen (Spec.Abi.encSame t cs)) (Spec.Abi.encSame t cs) 0).2)
+          rw [assembleGo_heads_length] at ht
+          have := same_general cs t block hvt hw hs32.1 (decide (cs.length > Gen.AbiCodecFacts.maxEmptyElementCount))
+            (hs + off + 32) (Spec.Abi.headsLen (Spec.Abi.encSame t cs)) 0 (hs + off + 32)
+            (by have := hs32.2.1; unfold LayoutSmall at this; omega)
+            (by
+              intro hov
+              have hgt : cs.length > Gen.AbiCodecFacts.maxEmptyElementCount := by simpa using hov
+              rcases hs32.2.2.2 with h | h | h
+              · omega
+              · exact Or.inl h
+              · exact Or.inr h)
+            hh (by simpa using ht)
+          rw [this]
+      | tuple ns ts =>
+        have hvt : ValidTys ts := by simpa [ValidTy] using hv
+        rw [Spec.Abi.WellTyped] at hw
+        rw [Small] at hs32
+        have hdt := isDynamicType_eq (.tuple ns ts) hv
+        constructor
+        · intro hst hs hp hat
+          rw [Spec.Abi.enc] at hat ⊢
+          rw [decode, hdt, hst]
+          simp only [Bool.false_eq_true, if_false]
+          have hany : Spec.Abi.anyDyn ts = false := by simpa [Spec.Abi.isDynamic] using hst
+          have hflags := encEach_flags ts cs hany
+          rw [assemble_static _ hflags] at hat ⊢
+          rw [each_static cs ts block hvt hw hs32.1 hany hs hp hat]
+        · intro hdy hs hp off hoff hato hatd
+          rw [Spec.Abi.enc] at hatd
+          rw [decode, hdt, hdy]
+          simp only [if_true]
+          rw [decodeLength_at block hp off hato hoff]
+          simp only []
+          have hh := hatd.left (a := (Spec.Abi.assembleGo (Spec.Abi.headsLen (Spec.Abi.encEach ts cs)) (Spec.Abi.encEach ts cs) 0).1)
+            (b := (Spec.Abi.assembleGo (Spec.Abi.headsLen (Spec.Abi.encEach ts cs)) (Spec.Abi.encEach ts cs) 0).2)
+          have ht := hatd.right (a := (Spec.Abi.assembleGo (Spec.Abi.headsLen (Spec.Abi.encEach ts cs)) (Spec.Abi.encEach ts cs) 0).1)
+            (b := (Spec.Abi.assembleGo (Spec.Abi.headsLen (Spec.Abi.encEach ts cs)) (Spec.Abi.encEach ts cs) 0).2)
+          rw [assembleGo_heads_length] at ht
+          have := each_general cs ts block hvt hw hs32.1 (hs + off) (Spec.Abi.headsLen (Spec.Abi.encEach ts cs)) 0 (hs + off)
+            (by have := hs32.2; unfold LayoutSmall at this; omega) hh (by simpa using ht)
+          rw [this]
+  /-- children of an array, read from an assembled head / tail layout whose heads start at `hpos` and whose tails
+      start at `p + hl + tb` (`p` = head start of the array) -/
+  theorem same_general : ∀ (cs : List CV) (t : Ty) (block : Bytes), ValidTy t → Spec.Abi.wellTypedSame t cs = true → SmallSame t cs →
+      ∀ (over : Bool) (p hl tb hpos : Nat), hl + tb + tailLen (Spec.Abi.encSame t cs) < 2 ^ 32 →
+        (over = true → Spec.Abi.isDynamic t = true ∨ ∀ c ∈ cs, (Spec.Abi.enc t c).length ≠ 0) →
+        At block hpos (Spec.Abi.assembleGo hl (Spec.Abi.encSame t cs) tb).1 →
+        At block (p + hl + tb) (Spec.Abi.assembleGo hl (Spec.Abi.encSame t cs) tb).2 →
+        decodeRepeatDyn (decode t block) over cs.length p hpos = .ok (Spec.Abi.headsLen (Spec.Abi.encSame t cs), cs)
+    | [], t, block, _, _, _ => by
+      intro over p hl tb hpos _ _ _ _
+      simp [decodeRepeatDyn, Spec.Abi.encSame, Spec.Abi.headsLen]
+    | c :: cs, t, block, hv, hw, hs32 => by
+      intro over p hl tb hpos hb hov hath hatt
+      rw [Spec.Abi.wellTypedSame] at hw
+      simp only [Bool.and_eq_true] at hw
+      rw [SmallSame] at hs32
+      have hnode := decode_enc c t block hv hw.1 hs32.1
+      rw [Spec.Abi.encSame] at hath hatt hb ⊢
+      rw [Spec.Abi.assembleGo] at hath hatt
+      simp only [List.length_cons]
+      rw [decodeRepeatDyn]
+      cases hdy : Spec.Abi.isDynamic t with
+      | true =>
+        simp only [hdy, if_true] at hath hatt
+        simp only [hdy, tailLen, if_true] at hb
+        have hdec := hnode.2 hdy p hpos (hl + tb) (by omega) hath.left (by simpa [Nat.add_assoc] using hatt.left)
+        rw [hdec]
+        simp only [show ((32 : Nat) == 0) = false from rfl, Bool.and_false, Bool.false_eq_true, if_false]
+        have hrest := same_general cs t block hv hw.2 hs32.2 over p hl (tb + (Spec.Abi.enc t c).length) (hpos + 32)
+          (by omega) (fun h => by
+            rcases hov h with h' | h'
+            · exact Or.inl h'
+            · exact Or.inr (fun c' hc' => h' c' (by simp [hc'])))
+          (by have := hath.right; simpa [Spec.Abi.encUint, toBE_length] using this)
+          (by have := hatt.right; simpa [Nat.add_assoc] using this)
+        rw [hrest]
+        simp [Spec.Abi.headsLen, hdy]
+      | false =>
+        simp only [hdy, Bool.false_eq_true, if_false] at hath hatt
+        simp only [hdy, tailLen, Bool.false_eq_true, if_false, Nat.zero_add] at hb
+        have hdec := hnode.1 hdy p hpos hath.left
+        rw [hdec]
+        simp only []
+        have hnz : (Gen.AbiCodecFacts.zeroSizeCountBounded && over && (Spec.Abi.enc t c).length == 0) = false := by
+          cases hover : over with
+          | false => simp
+          | true =>
+            rcases hov hover with h' | h'
+            · rw [hdy] at h'; cases h'
+            · have := h' c (by simp)
+              simp [this]
+        rw [hnz]
+        simp only [Bool.false_eq_true, if_false]
+        have hrest := same_general cs t block hv hw.2 hs32.2 over p hl tb (hpos + (Spec.Abi.enc t c).length)
+          (by omega) (fun h => by
+            rcases hov h with h' | h'
+            · exact Or.inl h'
+            · exact Or.inr (fun c' hc' => h' c' (by simp [hc'])))
+          hath.right hatt
+        rw [hrest]
+        simp [Spec.Abi.headsLen, hdy]
+  /-- children of a static array: one after the other -/
+  theorem same_static : ∀ (cs : List CV) (t : Ty) (block : Bytes), ValidTy t → Spec.Abi.wellTypedSame t cs = true → SmallSame t cs →
+      Spec.Abi.isDynamic t = false → ∀ (hs hpos : Nat), At block hpos (flat (Spec.Abi.encSame t cs)) →
+      decodeRepeat (decode t block) cs.length hs hpos = .ok ((flat (Spec.Abi.encSame t cs)).length, cs)
+    | [], t, block, _, _, _, _ => by
+      intro hs hpos _
+      simp [decodeRepeat, Spec.Abi.encSame, flat]
+    | c :: cs, t, block, hv, hw, hs32, hst => by
+      intro hs hpos hat
+      rw [Spec.Abi.wellTypedSame] at hw
+      simp only [Bool.and_eq_true] at hw
+      rw [SmallSame] at hs32
+      rw [Spec.Abi.encSame, flat] at hat ⊢
+      simp only [List.length_cons]
+      rw [decodeRepeat, (decode_enc c t block hv hw.1 hs32.1).1 hst hs hpos hat.left]
+      simp only []
+      rw [same_static cs t block hv hw.2 hs32.2 hst hs (hpos + (Spec.Abi.enc t c).length) hat.right]
+      simp
+  /-- members of a tuple, read from an assembled head / tail layout -/
+  theorem each_general : ∀ (cs : List CV) (ts : List Ty) (block : Bytes), ValidTys ts → Spec.Abi.wellTypedEach ts cs = true → SmallEach ts cs →
+      ∀ (p hl tb hpos : Nat), hl + tb + tailLen (Spec.Abi.encEach ts cs) < 2 ^ 32 →
+        At block hpos (Spec.Abi.assembleGo hl (Spec.Abi.encEach ts cs) tb).1 →
+        At block (p + hl + tb) (Spec.Abi.assembleGo hl (Spec.Abi.encEach ts cs) tb).2 →
+        decodeList ts block p hpos = .ok (Spec.Abi.headsLen (Spec.Abi.encEach ts cs), cs)
+    | [], [], block, _, _, _ => by
+      intro p hl tb hpos _ _ _
+      simp [decodeList, Spec.Abi.encEach, Spec.Abi.headsLen]
+    | [], _ :: _, block, _, hw, _ => by simp [Spec.Abi.wellTypedEach] at hw
+    | _ :: _, [], block, _, hw, _ => by simp [Spec.Abi.wellTypedEach] at hw
+    | c :: cs, t :: ts, block, hv, hw, hs32 => by
+      intro p hl tb hpos hb hath hatt
+      rw [Spec.Abi.wellTypedEach] at hw
+      simp only [Bool.and_eq_true] at hw
+      rw [SmallEach] at hs32
+      rw [ValidTys] at hv
+      have hnode := decode_enc c t block hv.1 hw.1 hs32.1
+      rw [Spec.Abi.encEach] at hath hatt hb ⊢
+      rw [Spec.Abi.assembleGo] at hath hatt
+      rw [decodeList]
+      cases hdy : Spec.Abi.isDynamic t with
+      | true =>
+        simp only [hdy, if_true] at hath hatt
+        simp only [hdy, tailLen, if_true] at hb
+        have hdec := hnode.2 hdy p hpos (hl + tb) (by omega) hath.left (by simpa [Nat.add_assoc] using hatt.left)
+        rw [hdec]
+        simp only []
+        have hrest := each_general cs ts block hv.2 hw.2 hs32.2 p hl (tb + (Spec.Abi.enc t c).length) (hpos + 32)
+          (by omega)
+          (by have := hath.right; simpa [Spec.Abi.encUint, toBE_length] using this)
+          (by have := hatt.right; simpa [Nat.add_assoc] using this)
+        rw [hrest]
+        simp [Spec.Abi.headsLen, hdy]
+      | false =>
+        simp only [hdy, Bool.false_eq_true, if_false] at hath hatt
+        simp only [hdy, tailLen, Bool.false_eq_true, if_false, Nat.zero_add] at hb
+        have hdec := hnode.1 hdy p hpos hath.left
+        rw [hdec]
+        simp only []
+        have hrest := each_general cs ts block hv.2 hw.2 hs32.2 p hl tb (hpos + (Spec.Abi.enc t c).length)
+          (by omega) hath.right hatt
+        rw [hrest]
+        simp [Spec.Abi.headsLen, hdy]
+  /-- members of a static tuple: one after the other -/
+  theorem each_static : ∀ (cs : List CV) (ts : List Ty) (block : Bytes), ValidTys ts → Spec.Abi.wellTypedEach ts cs = true → SmallEach ts cs →
+      Spec.Abi.anyDyn ts = false → ∀ (hs hpos : Nat), At block hpos (flat (Spec.Abi.encEach ts cs)) →
+      decodeList ts block hs hpos = .ok ((flat (Spec.Abi.encEach ts cs)).length, cs)
+    | [], [], block, _, _, _, _ => by
+      intro hs hpos _
+      simp [decodeList, Spec.Abi.encEach, flat]
+    | [], _ :: _, block, _, hw, _, _ => by simp [Spec.Abi.wellTypedEach] at hw
+    | _ :: _, [], block, _, hw, _, _ => by simp [Spec.Abi.wellTypedEach] at hw
+    | c :: cs, t :: ts, block, hv, hw, hs32, hany => by
+      intro hs hpos hat
+      rw [Spec.Abi.wellTypedEach] at hw
+      simp only [Bool.and_eq_true] at hw
+      rw [SmallEach] at hs32
+      rw [ValidTys] at hv
+      rw [Spec.Abi.anyDyn] at hany
+      simp only [Bool.or_eq_false_iff] at hany
+      rw [Spec.Abi.encEach, flat] at hat ⊢
+      rw [decodeList, (decode_enc c t block hv.1 hw.1 hs32.1).1 hany.1 hs hpos hat.left]
+      simp only []
+      rw [each_static cs ts block hv.2 hw.2 hs32.2 hany.2 hs (hpos + (Spec.Abi.enc t c).length) hat.right]
+      simp
+end
+
+/-- **Round trip of a whole parameter list.** Decoding the specification encoding of any well-typed value of any valid
+    parameter list — at any offset, with anything before and after it — returns exactly that value. -/
+theorem decodeParams_enc (ns : List String) (ts : List Ty) (cs : List CV) (pre post : Bytes)
+    (hv : ValidTys ts) (hw : Spec.Abi.wellTypedEach ts cs = true) (hs32 : Small (.tuple ns ts) (.kids cs)) :
+    decodeParams ts (pre ++ Spec.Abi.enc (.tuple ns ts) (.kids cs) ++ post) pre.length = .ok (.kids cs) := by
+  rw [Small] at hs32
+  have henc : Spec.Abi.enc (.tuple ns ts) (.kids cs) = Spec.Abi.assemble (Spec.Abi.encEach ts cs) := by rw [Spec.Abi.enc]
+  rw [henc]
+  have hat : At (pre ++ Spec.Abi.assemble (Spec.Abi.encEach ts cs) ++ post) pre.length (Spec.Abi.assemble (Spec.Abi.encEach ts cs)) :=
+    ⟨pre, post, rfl, rfl⟩
+  have hh := hat.left (a := (Spec.Abi.assembleGo (Spec.Abi.headsLen (Spec.Abi.encEach ts cs)) (Spec.Abi.encEach ts cs) 0).1)
+    (b := (Spec.Abi.assembleGo (Spec.Abi.headsLen (Spec.Abi.encEach ts cs)) (Spec.Abi.encEach ts cs) 0).2)
+  have ht := hat.right (a := (Spec.Abi.assembleGo (Spec.Abi.headsLen (Spec.Abi.encEach ts cs)) (Spec.Abi.encEach ts cs) 0).1)
+    (b := (Spec.Abi.assembleGo (Spec.Abi.headsLen (Spec.Abi.encEach ts cs)) (Spec.Abi.encEach ts cs) 0).2)
+  rw [assembleGo_heads_length] at ht
+  have := each_general cs ts _ hv hw hs32.1 pre.length (Spec.Abi.headsLen (Spec.Abi.encEach ts cs)) 0 pre.length
+    (by have := hs32.2; unfold LayoutSmall at this; omega) hh (by simpa using ht)
+  unfold decodeParams
+  rw [this]
 
 end FFS.Props.C03
